@@ -42,10 +42,10 @@ def run(ctx):
     from rnapolis.parser_v2 import can_write_pdb, fit_to_pdb, parse_cif_atoms, parse_pdb_atoms, write_pdb
     rng = ctx.rng
     ctx.coverage["rule"] = ("generated mmCIF- and PDB-derived tables: within limits, multi-character chain ids, numbers above 9999, serials above 99999, insertion codes, "
-                            "more than 62 chains (and more than 99999 atoms in thorough). Non-trivial = the table does not already fit; distinct by table text.")
+                            "more than 62 chains, one offending atom among fitting ones, an offending atom with another identifying item missing. Non-trivial = the table does not already fit; distinct by table text.")
     corr_expr, corr_exp, corr_case = [], [], []
     known = 0
-    kinds = ["fits", "longchain", "bignumber", "bigserial", "icode+longchain", "63chains", "pdb", "one-longchain", "one-bignumber", "one-bigserial"]
+    kinds = ["fits", "longchain", "bignumber", "bigserial", "icode+longchain", "63chains", "pdb", "one-longchain", "one-bignumber", "one-bigserial", "offender-with-missing"]
     n = 40 if ctx.quick else 300
     for t in range(n):
         kind = kinds[t % len(kinds)]
@@ -88,6 +88,19 @@ def run(ctx):
                     table.append(r2)
         fmt = "PDB" if kind == "pdb" else "mmCIF"
         text = genatoms.emit_pdb(table) if fmt == "PDB" else genatoms.emit_cif(table)
+        if kind == "offender-with-missing":
+            # one atom breaks one limit while another of its three identifying items is '?' or '.': a missing value hides nothing
+            text = genatoms.emit_cif(table)
+            lines = text.split("\n")
+            rows = [i for i, ln in enumerate(lines) if ln.startswith(("ATOM", "HETATM"))]
+            i = rng.choice(rows)
+            f = lines[i].split(" ")
+            if len(f) == 21:
+                bad, miss = rng.sample([1, 16, 18], 2)       # id, auth_seq_id, auth_asym_id
+                f[bad] = {1: "100000", 16: "10000", 18: f[18] + "B"}[bad]
+                f[miss] = rng.choice("?.")
+                lines[i] = " ".join(f)
+                text = "\n".join(lines)
         df = parse_pdb_atoms(text) if fmt == "PDB" else parse_cif_atoms(text)
         before = canon_rows(df)
         says_fits = bool(can_write_pdb(df))
